@@ -3,6 +3,10 @@ import NeverModel.Props.C03
 import NeverModel.Lemmas.VmEffect
 import NeverModel.Lemmas.VmEffectSound
 import NeverModel.Lemmas.VmIpSound
+import NeverModel.Lemmas.VerCert
+import NeverModel.Lemmas.VerLocal
+import NeverModel.Lemmas.VerCalls
+import NeverModel.Lemmas.VerFoot
 /-!
 # C07 — emitted code is well-formed on every path, executed or not
 
@@ -146,12 +150,7 @@ theorem verified_flow (md : Module) (sm : Summary) (hm : HMap) (hv : verifyH md 
     (hi : md.code[a]? = some i) (hs : hm[a]? = some (some st)) (he : simpleEffect i = some (p, q)) (hj : i.op ≠ .JUMPZ) :
     ∃ st', hm[a + 1]? = some (some st') ∧ p ≤ st.h ∧ st'.h + p = st.h + q := by
   obtain ⟨_, hf⟩ := verifyH_ok md sm hm hv
-  unfold flowOk at hf
-  have ha : a < md.code.size := by
-    rcases Nat.lt_or_ge a md.code.size with h | h
-    · exact h
-    · rw [Array.getElem?_eq_none (by omega)] at hi; cases hi
-  have := (List.all_eq_true.mp hf) a (List.mem_range.mpr ha)
+  have := (flowOk_at hf (lt_size_of_getElem? hi)).1
   unfold flowOkAt at this
   simp only [hi, hs, he] at this
   have hj' : (i.op == Opc.JUMPZ) = false := by simpa using hj
@@ -197,12 +196,7 @@ theorem verified_flow_branch (md : Module) (sm : Summary) (hm : HMap) (hv : veri
         (∃ s2, hm[((a : Int) + 1 + i32 i.w0).toNat]? = some (some s2) ∧ s2.h + 1 = st.h)) ∧
     (i.op = .JUMP → ∃ s2, hm[((a : Int) + 1 + i32 i.w0).toNat]? = some (some s2) ∧ s2.h = st.h) := by
   obtain ⟨_, hf⟩ := verifyH_ok md sm hm hv
-  unfold flowOk at hf
-  have ha : a < md.code.size := by
-    rcases Nat.lt_or_ge a md.code.size with h | h
-    · exact h
-    · rw [Array.getElem?_eq_none (by omega)] at hi; cases hi
-  have key := (List.all_eq_true.mp hf) a (List.mem_range.mpr ha)
+  have key := (flowOk_at hf (lt_size_of_getElem? hi)).1
   unfold flowOkAt at key
   simp only [hi, hs] at key
   constructor
@@ -266,5 +260,458 @@ example : (match verifyH tinyModule with
 
 /-- how many opcodes that theorem covers (of `Opc.all`) — not vacuous -/
 example : (Opc.all.toList.filter isArith).length = 77 := by decide +kernel
+
+/-! ## From the certificate to executions: frame opcodes, frame-relative addressing, runs inside one activation
+
+`verifyH` re-checks its height map with `flowOk` = `flowOkAt` (the effect table, JUMP) ∧ `frameOkAt` (MARK, CALL, SLIDE, RET,
+CLEAR_STACK, PUSH_PARAM, MK_INIT_ARRAY, the reach of the frame-relative opcodes, every edge inside one function) ∧ `handlersOk`
+(every handler of the exception table is `[LABEL] CLEAR_STACK/RETHROW/UNHANDLED_EXCEPTION` at a reached address).  The theorems
+below rest on that re-check only.  Notation: `fnParamsAt md a` = parameter count (emitter hook) of the function containing `a`;
+`AtHeight md hm vm` = running, `ip` reached, `sp = pp + fnParamsAt md ip + h(ip)`; `AtHandler` = running at a handler entry. -/
+
+/-- **What a verified module says statically about its frame opcodes** (at every reached address, executed or not): a function
+returns with exactly its result above its parameters (`RET` at height 1); a `CALL` no `MARK` returns behind (a last call) leaves
+exactly the fresh-entry frame (height 1 = the function object; 0 after the pop), a marked one finds its function object; both
+successors of a `MARK` are reached at the heights `h + 5` (behind it) and `h + 1` (its return address: frame popped, result pushed),
+in the same function; `CLEAR_STACK n` has `n` = the parameter count of its function. -/
+theorem verified_frame_heights (md : Module) (sm : Summary) (hm : HMap) (hv : verifyH md = .ok (sm, hm))
+    (a : Nat) (i : Instr) (st : AbsSt) (hi : md.code[a]? = some i) (hs : hm[a]? = some (some st)) :
+    (i.op = .RET → st.h = 1) ∧
+    (i.op = .CALL → (markedCall md a = true ∧ 1 ≤ st.h) ∨ (markedCall md a = false ∧ st.h = 1)) ∧
+    (i.op = .MARK → (∃ s1, hm[a + 1]? = some (some s1) ∧ s1.h = st.h + 5 ∧ fnParamsAt md (a + 1) = fnParamsAt md a) ∧
+                    (∃ s2, hm[i.w0]? = some (some s2) ∧ s2.h = st.h + 1 ∧ fnParamsAt md i.w0 = fnParamsAt md a)) ∧
+    (i.op = .CLEAR_STACK → i.w0 = fnParamsAt md a) := by
+  obtain ⟨_, hf⟩ := verifyH_ok md sm hm hv
+  have hfr := frame_at hf hi
+  refine ⟨fun h => frameOkAt_RET hi hs h hfr, fun h => frameOkAt_CALL hi hs h hfr, fun h => ?_, fun h => (frameOkAt_CLEAR_STACK hi hs h hfr).1⟩
+  obtain ⟨k1, k2⟩ := frameOkAt_MARK hi hs h hfr
+  obtain ⟨s2, e1, e2, e3⟩ := hAt_spec k1
+  obtain ⟨s1, f1, f2, f3⟩ := hAt_spec k2
+  exact ⟨⟨s1, f1, f2, fnParamsAt_same f3⟩, ⟨s2, e1, e2, fnParamsAt_same e3⟩⟩
+
+/-- **MARK** in a verified module, from a machine at its recorded height: `pp` is left alone, `fp = sp := sp + 5` (the five frame
+words), and the machine is at the recorded height of the next address -/
+theorem verified_mark_step (md : Module) (orc : Oracle) (sm : Summary) (hm : HMap) (hv : verifyH md = .ok (sm, hm))
+    (vm vm' : Vm) (i : Instr) (hi : md.code[vm.ip]? = some i) (hop : i.op = .MARK) (hh : AtHeight md hm vm)
+    (hstep : (step md orc).run vm = .ok ((), vm')) :
+    vm'.pp = vm.pp ∧ vm'.fp = vm.sp + 5 ∧ vm'.sp = vm.sp + 5 ∧ vm'.ip = vm.ip + 1 ∧ vm'.stackSize = vm.stackSize ∧ AtHeight md hm vm' := by
+  obtain ⟨_, hf⟩ := verifyH_ok md sm hm hv
+  obtain ⟨hrun, st, hs, hinv⟩ := hh
+  obtain ⟨_, r1, r2, r3, _, r5, r6, r7⟩ := step_MARK_regs md orc vm vm' i hi hop hrun hstep
+  obtain ⟨_, hk⟩ := frameOkAt_MARK hi hs hop (frame_at hf hi)
+  exact ⟨r3, r2, r1, r5, r7, (atHeight_next hf hinv hk r6 r5 r3 (by rw [r1]; omega)).1⟩
+
+/-- **SLIDE q m** in a verified module, from a machine at its recorded height: `sp` moves by `−q`, `fp`/`pp` are left alone, and the
+machine is at the recorded height of the next address — in the ordinary case (`q + m ≤ h`) and in the last-call case (`h = q + 1`,
+`m = nparams + 1`: the new arguments and the function object replace the parameters; then `sp = pp + nparams + 1`) -/
+theorem verified_slide_step (md : Module) (orc : Oracle) (sm : Summary) (hm : HMap) (hv : verifyH md = .ok (sm, hm))
+    (vm vm' : Vm) (i : Instr) (hi : md.code[vm.ip]? = some i) (hop : i.op = .SLIDE) (hh : AtHeight md hm vm)
+    (hstep : (step md orc).run vm = .ok ((), vm')) :
+    vm'.pp = vm.pp ∧ vm'.fp = vm.fp ∧ vm'.sp = vm.sp - (i.w0 : Int) ∧ vm'.ip = vm.ip + 1 ∧ vm'.stackSize = vm.stackSize ∧ AtHeight md hm vm' ∧
+    (∀ st, hm[vm.ip]? = some (some st) → i.w0 ≠ 0 → st.h < i.w0 + i.w1 →
+       i.w1 = fnParamsAt md vm.ip + 1 ∧ vm'.sp = vm.pp + (fnParamsAt md vm.ip : Int) + 1 ∧ (md.code[vm.ip + 1]?.map (·.op)) = some .CALL) := by
+  obtain ⟨_, hf⟩ := verifyH_ok md sm hm hv
+  obtain ⟨hrun, st, hs, hinv⟩ := hh
+  obtain ⟨r1, r2, r3, _, r5, r6, r7⟩ := step_SLIDE_regs md orc vm vm' i hi hop hrun hstep
+  have hc := frameOkAt_SLIDE hi hs hop (frame_at hf hi)
+  refine ⟨r3, r2, r1, r5, r7, ?_, ?_⟩
+  · rcases hc with ⟨hq, hk⟩ | ⟨hq, hle, hk⟩ | ⟨hq, hlt, hh, _, _, hk⟩
+    · exact (atHeight_next hf hinv hk r6 r5 r3 (by rw [r1, hq]; simp)).1
+    · exact (atHeight_next hf hinv hk r6 r5 r3 (by rw [r1]; omega)).1
+    · exact (atHeight_next hf hinv hk r6 r5 r3 (by rw [r1]; omega)).1
+  · intro st2 hs2 hq hlt
+    rw [hs] at hs2; cases hs2
+    rcases hc with ⟨hq', _⟩ | ⟨_, hle, _⟩ | ⟨_, _, hh, hm1, hcall, _⟩
+    · exact absurd hq' hq
+    · omega
+    · exact ⟨hm1, by rw [r1]; unfold fnParamsAt at hinv ⊢; omega, hcall⟩
+
+/-- **CLEAR_STACK n** in a verified module, from ANY running or just-dispatched machine at a reached address (a catch clause is
+entered with whatever `sp` the faulting instruction left): `fp = pp`, `sp = pp + n` with `n` the parameter count of the function, and
+the machine is at the recorded height (0) of the next address -/
+theorem verified_clear_stack_step (md : Module) (orc : Oracle) (sm : Summary) (hm : HMap) (hv : verifyH md = .ok (sm, hm))
+    (vm vm' : Vm) (i : Instr) (st : AbsSt) (hi : md.code[vm.ip]? = some i) (hop : i.op = .CLEAR_STACK) (hs : hm[vm.ip]? = some (some st))
+    (hstep : (step md orc).run vm = .ok ((), vm')) :
+    vm'.pp = vm.pp ∧ vm'.fp = vm.pp ∧ vm'.sp = vm.pp + (fnParamsAt md vm.ip : Int) ∧ vm'.ip = vm.ip + 1 ∧ vm'.stackSize = vm.stackSize ∧
+    AtHeight md hm vm' := by
+  obtain ⟨_, hf⟩ := verifyH_ok md sm hm hv
+  obtain ⟨r1, r2, r3, _, r5, r6, r7⟩ := step_CLEAR_STACK_regs md orc vm vm' i hi hop hstep
+  obtain ⟨hn, hk⟩ := frameOkAt_CLEAR_STACK hi hs hop (frame_at hf hi)
+  obtain ⟨st', e1, e2, e3⟩ := hAt_spec hk
+  refine ⟨r3, r2, by rw [r1, hn]; rfl, r5, r7, r6, st', by rw [r5]; exact e1, ?_⟩
+  rw [r5, fnParamsAt_same e3, r3, r1, e2, hn]; unfold fnParamsAt; omega
+
+/-- **PUSH_PARAM** (entry stub) and **MK_INIT_ARRAY** in a verified module, from a machine at its recorded height: `pp` is left alone
+and the machine is at the recorded height of the next address (or an allocation stopped the machine).  For `MK_INIT_ARRAY` the
+hypothesis is that the extents found on the stack are the constants the verifier recorded (pushed by the preceding `INT`s; the
+verifier's constant propagation is not re-proved over executions): then exactly `dims + Π extents` slots are popped and one pushed. -/
+theorem verified_data_step (md : Module) (orc : Oracle) (sm : Summary) (hm : HMap) (hv : verifyH md = .ok (sm, hm))
+    (vm vm' : Vm) (i : Instr) (st : AbsSt) (hi : md.code[vm.ip]? = some i) (hs : hm[vm.ip]? = some (some st))
+    (hop : i.op = .PUSH_PARAM ∨ (i.op = .MK_INIT_ARRAY ∧ stackInts vm i.w0 vm.sp = initExts st i.w0))
+    (hh : AtHeight md hm vm) (hstep : (step md orc).run vm = .ok ((), vm')) : Succ md hm vm vm' := by
+  obtain ⟨_, hf⟩ := verifyH_ok md sm hm hv
+  obtain ⟨hrun, st2, hs2, hinv⟩ := hh
+  rw [hs] at hs2; cases hs2
+  rcases hop with hop | ⟨hop, hext⟩
+  · exact succ_PUSH_PARAM hf orc vm vm' i st hi hs hop hrun hinv hstep
+  · exact succ_MK_INIT_ARRAY hf orc vm vm' i st hi hs hop hrun hinv hext hstep
+
+/-- **Frame-relative addressing stays in the function's own frame.**  For `ID_LOCAL`, `ID_DIM_LOCAL`, `ID_DIM_SLICE`, `OP_DUP_INT`,
+`OP_INC_INT`, `OP_DEC_INT`, `ARRAY_APPEND`, `VEC_DEREF`, `VECREF_VEC_DEREF`, `DUP`, `REWRITE` (`frameDist i = some d`: the handler
+reads stack slot `sp − d`, see `frame_slot_is_read`) at a reached address inside a function body of a verified module: whenever
+`sp = pp + nparams + h(ip)`, the slot lies in `(pp, sp]` — above the caller's data and the five frame words, at or below the top. -/
+theorem verified_local_in_frame (md : Module) (sm : Summary) (hm : HMap) (hv : verifyH md = .ok (sm, hm))
+    (a : Nat) (i : Instr) (st : AbsSt) (d : Int) (hi : md.code[a]? = some i) (hs : hm[a]? = some (some st))
+    (hd : frameDist i = some d) (hfn : inFunction md a = true)
+    (sp pp : Int) (hsp : sp = pp + (fnParamsAt md a : Int) + (st.h : Int)) : pp < sp - d ∧ sp - d ≤ sp :=
+  local_in_frame (verifyH_ok md sm hm hv).2 hi hs hd hfn sp pp hsp
+
+/-- the handler of a frame-relative opcode does access slot `sp − frameDist`: if that index were outside the stack array the
+handler would not complete (M-VM: crash = an out-of-bounds access of the C array) -/
+theorem frame_slot_is_read (md : Module) (i : Instr) (orc : Oracle) (d : Int) (hd : frameDist i = some d) (vm vm' : Vm)
+    (h : (exec md i orc).run vm = .ok ((), vm')) : 0 ≤ vm.sp - d ∧ vm.sp - d < vm.stackSize :=
+  exec_reads_frame_slot md i orc d hd vm vm' h
+
+/-- **One step inside an activation of a verified module.**  From a machine at its recorded height (`AtHeight`) or at a handler
+entry (`AtHandler`), a step on any instruction other than CALL / RET / RETHROW / HALT / UNHANDLED_EXCEPTION (`Inside`; for
+`MK_INIT_ARRAY` it also asks that the extents on the stack are the recorded constants) leaves `pp` and the stack size alone and
+ends: at the recorded height of the address it reached, in the same function; or at a handler entry — the next address, or the
+handler the exception table assigns to the faulting address —; or with the machine stopped (`running = 3`). -/
+theorem verified_step_in_activation (md : Module) (orc : Oracle) (sm : Summary) (hm : HMap) (hv : verifyH md = .ok (sm, hm))
+    (vm vm' : Vm) (hg : AtHeight md hm vm ∨ AtHandler md hm vm) (hin : Inside md hm vm)
+    (hstep : (step md orc).run vm = .ok ((), vm')) :
+    vm'.pp = vm.pp ∧ vm'.stackSize = vm.stackSize ∧
+    ((AtHeight md hm vm' ∧ sameFn (funcStarts md) vm.ip vm'.ip = true) ∨
+     (AtHandler md hm vm' ∧ (vm'.ip = vm.ip + 1 ∨ excHandler md.exctab md.excCount vm.ip = some vm'.ip)) ∨
+     vm'.running = 3) :=
+  step_good (verifyH_ok md sm hm hv).2 orc vm vm' hg hin hstep
+
+/-- **Runs inside one activation of a verified module keep the height invariant** (`RunsTo md P n vm vm'`: `vm'` is reached from
+`vm` by `n` steps, each from a running machine satisfying `P`, each with arbitrary results of its external calls).  From a machine at
+its recorded height or at a handler entry, as long as the executed instructions are not CALL / RET / RETHROW / HALT /
+UNHANDLED_EXCEPTION (and `MK_INIT_ARRAY` finds the recorded constants), every reached state has the same `pp` and stack size and is
+again at the recorded height of ITS address (`sp = pp + nparams + h(ip)`), or at a handler entry (whose `CLEAR_STACK` re-establishes
+the height), or the machine stopped. -/
+theorem verified_run_in_activation (md : Module) (sm : Summary) (hm : HMap) (hv : verifyH md = .ok (sm, hm))
+    (n : Nat) (vm vm' : Vm) (hg : AtHeight md hm vm ∨ AtHandler md hm vm) (hr : RunsTo md (Inside md hm) n vm vm') :
+    vm'.pp = vm.pp ∧ vm'.stackSize = vm.stackSize ∧ ((AtHeight md hm vm' ∨ AtHandler md hm vm') ∨ vm'.running = 3) :=
+  runsTo_good (verifyH_ok md sm hm hv).2 n vm vm' hg hr
+
+/-- the same for the loop function `run` (`while (running == VM_RUNNING) step`), with one oracle per step: if every state the run
+passes through is `Inside` its activation, the final state satisfies the invariant -/
+theorem verified_run_fn_in_activation (md : Module) (sm : Summary) (hm : HMap) (hv : verifyH md = .ok (sm, hm))
+    (orc : Nat → Oracle) (n : Nat) (vm vm' : Vm) (hg : AtHeight md hm vm ∨ AtHandler md hm vm)
+    (hrun : run md orc n vm = .ok vm')
+    (hin : ∀ k v, RunsTo md (fun _ => True) k vm v → v.running = 1 → Inside md hm v) :
+    vm'.pp = vm.pp ∧ vm'.stackSize = vm.stackSize ∧ ((AtHeight md hm vm' ∨ AtHandler md hm vm') ∨ vm'.running = 3) := by
+  obtain ⟨k, _, hk⟩ := run_runsTo md orc n vm vm' hrun
+  exact verified_run_in_activation md sm hm hv k vm vm' hg
+    (runsTo_strengthen md _ k vm vm' hk (fun j v _ hr hv => hin j v hr hv))
+
+/-- a module with a marked call, a frame-relative read, a catch clause and a last call; it verifies, and the certificate re-check
+`frameOkAt` is exercised at MARK (0), CALL (4, marked; 23, last call), ID_LOCAL (9, 17), RET (12), CLEAR_STACK (14), SLIDE (22) -/
+def callModule : Module := {
+  code := #[⟨.MARK, 5, 0, 0⟩, ⟨.INT, 7, 0, 0⟩, ⟨.GLOBAL_VEC, 0, 0, 0⟩, ⟨.ID_FUNC_ADDR, 8, 0, 0⟩, ⟨.CALL, 0, 0, 0⟩, ⟨.HALT, 0, 0, 0⟩,
+            ⟨.LABEL, 0, 0, 0⟩, ⟨.UNHANDLED_EXCEPTION, 0, 0, 0⟩,
+            -- f(x) = x + 1, with a catch clause returning 0
+            ⟨.FUNC_DEF, 0, 0, 0⟩, ⟨.ID_LOCAL, 0, 0, 0⟩, ⟨.INT, 1, 0, 0⟩, ⟨.OP_ADD_INT, 0, 0, 0⟩, ⟨.RET, 0, 0, 0⟩,
+            ⟨.LABEL, 0, 0, 0⟩, ⟨.CLEAR_STACK, 1, 0, 0⟩, ⟨.INT, 0, 0, 0⟩, ⟨.RET, 0, 0, 0⟩,
+            -- g(x) = g(x + 1) as a last call: args; func; SLIDE 1+L 2; CALL  (here L = 0: height 2 = q + 1 with q = 1)
+            ⟨.FUNC_DEF, 0, 0, 0⟩, ⟨.ID_LOCAL, 0, 0, 0⟩, ⟨.INT, 1, 0, 0⟩, ⟨.OP_ADD_INT, 0, 0, 0⟩, ⟨.GLOBAL_VEC, 0, 0, 0⟩, ⟨.ID_FUNC_ADDR, 17, 0, 0⟩,
+            ⟨.SLIDE, 1, 2, 0⟩, ⟨.CALL, 0, 0, 0⟩, ⟨.LABEL, 0, 0, 0⟩, ⟨.RETHROW, 0, 0, 0⟩],
+  strtab := #[], exctab := #[⟨0, 6⟩, ⟨8, 13⟩, ⟨17, 25⟩, ⟨4294967295, 0⟩], excCount := 3, codeEntry := 0, entryAddr := 8, params := [],
+  fnParams := [(8, 1), (17, 1)] }
+
+example : (match verifyH callModule with
+    | .ok (_, hm) => (hm.toList.map fun o => o.map (·.h)) ==
+        [some 0, some 5, some 6, some 7, some 7, some 1, some 0, some 0,
+         some 0, some 0, some 1, some 2, some 1, some 0, some 0, some 0, some 1,
+         some 0, some 0, some 1, some 2, some 1, some 2, some 2, some 1, some 0, some 0]
+    | .error _ => false) = true := by decide +kernel
+
+/-- the certificate is not vacuous: the height map of the good module does not re-check (`flowOk`) against the same code with the
+function returning at height 2, with a frame-relative read below the frame, or with a wrong `CLEAR_STACK` count -/
+example : (match verifyH callModule with
+    | .ok (_, hm) =>
+      let bad (a : Nat) (i : Instr) : Bool := !flowOk { callModule with code := callModule.code.set! a i } hm
+      bad 11 ⟨.RET, 0, 0, 0⟩ && bad 9 ⟨.ID_LOCAL, 1, 0, 0⟩ && bad 14 ⟨.CLEAR_STACK, 2, 0, 0⟩ && flowOk callModule hm
+    | .error _ => false) = true := by decide +kernel
+
+/-- … and address by address (`frameOkAt`): reach below the frame / above the top, `CLEAR_STACK` count, last-call slide one too
+far, `RET` at height 2, `MARK` whose return address has the wrong height -/
+example : (match verifyH callModule with
+    | .ok (_, hm) =>
+      let ok (a : Nat) (i : Instr) : Bool := frameOkAt { callModule with code := callModule.code.set! a i } (funcStarts callModule) hm a
+      !ok 9 ⟨.ID_LOCAL, 1, 0, 0⟩ && !ok 9 ⟨.ID_LOCAL, 0, 1, 0⟩ && !ok 14 ⟨.CLEAR_STACK, 2, 0, 0⟩ && !ok 23 ⟨.SLIDE, 2, 2, 0⟩ &&
+      !ok 11 ⟨.RET, 0, 0, 0⟩ && !ok 0 ⟨.MARK, 4, 0, 0⟩ && ok 9 ⟨.ID_LOCAL, 0, 0, 0⟩ && ok 24 ⟨.CALL, 0, 0, 0⟩
+    | .error _ => false) = true := by decide +kernel
+
+/-- the hypotheses of the step theorems are met on a real run: three steps of M-VM from the initial machine of `callModule`
+(MARK; INT; GLOBAL_VEC) pass through states at the recorded heights 5, 6, 7 -/
+example : (match run callModule (fun _ => {}) 3 { Vm.new 64 32 with running := 1 } with
+    | .ok v => v.ip == 3 && v.sp == v.pp + 0 + 7 && v.fp == 4 && v.running == 1
+    | .error _ => false) = true := by decide +kernel
+
+/-- the hypotheses of `verified_run_in_activation` are satisfiable on real runs: from the start machine of `callModule` the four
+steps MARK; INT; GLOBAL_VEC; ID_FUNC_ADDR form a run `Inside` the activation (checked by the decidable `insideB`), and so do the four
+steps of the callee's body from its entry (state after 5 steps) up to its RET -/
+example : ∀ sm hm, verifyH callModule = .ok (sm, hm) →
+    (∃ k v, RunsTo callModule (Inside callModule hm) k (beginExecute callModule (Vm.new 64 32)) v ∧ v.ip = 4) := by
+  intro sm hm hv
+  have key : (match verifyH callModule with
+      | .ok (_, hm) => (match runInB callModule hm (fun _ => {}) 4 (beginExecute callModule (Vm.new 64 32)) with
+                        | some v => v.ip == 4 | none => false)
+      | .error _ => false) = true := by decide +kernel
+  rw [hv] at key
+  simp only at key
+  cases hr : runInB callModule hm (fun _ => {}) 4 (beginExecute callModule (Vm.new 64 32)) with
+  | none => rw [hr] at key; cases key
+  | some v =>
+    rw [hr] at key
+    obtain ⟨k, hk⟩ := runInB_runsTo callModule hm _ 4 _ _ hr
+    exact ⟨k, v, hk, by simpa using key⟩
+
+/-! ## Calls and returns: the global invariant over whole executions
+
+The frame records MARK pushes are followed as a ghost list beside the machine (`Rec`: position `F` of the return-address word =
+`fp` after the MARK, saved `pp`, saved `fp`, return address; `ghostNext`: MARK pushes, RET / RETHROW pop, CLEAR_STACK drops the
+records of calls in preparation).  `Sound md hm bot vm recs` is the global invariant: the stack array has its size; the machine is at
+the recorded height of its address (`sp = pp + nparams + h(ip)`) or at a handler entry; `fp` is the innermost live record and `pp` a
+live record (or the bottom value `bot`); every live record holds its three words and returning through it lands at the recorded
+height of its return address.  What the verifier does NOT establish enters as the per-step side conditions `StepOk`:
+"function objects hold entry addresses of the right arity" (`CallOk`: type soundness of the compiler), "frame words are not
+overwritten" (`FramesKept`: proved below for CALL / CLEAR_STACK / JUMP / JUMPZ, for MARK and RET relative to the record positions; for
+the data opcodes it would need a write-footprint logic over all handlers, and for records of calls in preparation the verifier does
+not track them), and the recorded constants of `MK_INIT_ARRAY`. -/
+
+/-- **The size of the stack array is an invariant of execution** (any module, any instruction: every stack write of M-VM is in
+bounds or a crash): a `step` from a machine whose stack array has the configured size ends in such a machine. -/
+theorem stack_size_invariant (md : Module) (orc : Oracle) (vm vm' : Vm) (hs : StackOk vm)
+    (hstep : (step md orc).run vm = .ok ((), vm')) : StackOk vm' ∧ vm'.stackSize = vm.stackSize :=
+  step_keeps_stackOk md orc vm vm' hs hstep
+
+/-- **CALL in a verified module** (marked or last call), from a state satisfying the global invariant, when the function value on
+top is nil or the entry of a function with as many parameters as arguments were pushed above the frame record (`CallOk`): the callee
+is entered at its recorded height 0 with `pp = fp` and `sp = pp + nparams(callee)` — or nil_pointer is raised and control is at the
+handler of the CALL's address —; the live records are unchanged and the invariant holds again. -/
+theorem verified_call_step (md : Module) (orc : Oracle) (sm : Summary) (hm : HMap) (hv : verifyH md = .ok (sm, hm)) (bot : Int)
+    (vm vm' : Vm) (recs : List Rec) (i : Instr) (hi : md.code[vm.ip]? = some i) (hop : i.op = .CALL)
+    (hs : Sound md hm bot vm recs) (hstep : (step md orc).run vm = .ok ((), vm')) (hok : StepOk md hm vm vm' recs) :
+    Sound md hm bot vm' recs := by
+  have h := sound_CALL (verifyH_ok md sm hm hv).2 orc vm vm' recs i hi hop hs hstep hok
+  rwa [ghostNext_other hi (by rw [hop]; decide) (by rw [hop]; decide) (by rw [hop]; decide) (by rw [hop]; decide)] at h
+
+/-- **A call returns to its MARK with exactly its result.**  RET in a verified module, from a state satisfying the global invariant
+with innermost live record `r` (pushed by the MARK executed at stack pointer `sp₀ = r.F − 5`, in a frame with `pp = r.pp`, `fp = r.fp`,
+return address `r.ra`): the machine is running at `r.ra` with `sp = r.F − 4 = sp₀ + 1` — the frame record and everything above it
+popped, the one result pushed —, `pp` and `fp` restored to their values at the MARK; the record is no longer live, and the invariant
+holds again (in particular `sp = pp + nparams + h(r.ra)`: the recorded height of the return address). -/
+theorem verified_ret_step (md : Module) (orc : Oracle) (sm : Summary) (hm : HMap) (hv : verifyH md = .ok (sm, hm)) (bot : Int)
+    (vm vm' : Vm) (recs : List Rec) (i : Instr) (hi : md.code[vm.ip]? = some i) (hop : i.op = .RET)
+    (hs : Sound md hm bot vm recs) (hstep : (step md orc).run vm = .ok ((), vm')) (hok : StepOk md hm vm vm' recs) :
+    ∃ r rs, recs = r :: rs ∧ vm'.ip = r.ra ∧ vm'.sp = r.F - 4 ∧ vm'.fp = r.fp ∧ vm'.pp = r.pp ∧ vm'.running = 1 ∧ Sound md hm bot vm' rs := by
+  obtain ⟨h, r, rs, e1, e2, e3, e4, e5, e6, e7⟩ := sound_RET (verifyH_ok md sm hm hv).2 orc vm vm' recs i hi hop hs hstep hok
+  rw [e2] at h
+  exact ⟨r, rs, e1, e3, e4, e5, e6, e7, h⟩
+
+/-- the record a MARK pushes: `F = sp + 5`, the `pp` and `fp` of the moment, the MARK's return address.  (With `verified_ret_step`: the
+RET that pops it continues at that return address with `sp = (sp before the MARK) + 1`, `pp`/`fp` as before the MARK.) -/
+theorem mark_pushes_record (md : Module) (vm : Vm) (recs : List Rec) (i : Instr) (hi : md.code[vm.ip]? = some i) (hop : i.op = .MARK) :
+    ghostNext md vm recs = { F := vm.sp + 5, pp := vm.pp, fp := vm.fp, ra := i.w0 } :: recs := by
+  unfold ghostNext; simp only [hi, hop]
+
+/-- **A complete (balanced) call returns behind its MARK with exactly its result.**  Let a verified module's machine satisfy the
+global invariant with live records `recs`, about to execute `MARK ra` at stack pointer `sp₀`.  After the MARK (the live records are
+`r₀ :: recs`, `r₀` = the record it pushed), let the run go on in any way — arguments, nested calls, the CALL itself, the whole callee,
+exceptions caught inside — (`RunsG`, side conditions `StepOk` at every step) to a running state whose live records are again exactly
+`r₀ :: recs` and whose instruction is `RET`.  Then that RET — the matching one — continues at `ra` with `sp = sp₀ + 1` (frame record,
+arguments and everything the callee pushed are gone; the one result is pushed), `fp` and `pp` as they were at the MARK, and the global
+invariant holds with live records `recs`: in particular `sp = pp + nparams + h(ra)`, the height the verifier recorded behind the call. -/
+theorem verified_marked_call_returns (md : Module) (sm : Summary) (hm : HMap) (hv : verifyH md = .ok (sm, hm)) (bot : Int)
+    (vm v1 v2 v3 : Vm) (recs : List Rec) (i j : Instr) (orc1 orc3 : Oracle) (k : Nat)
+    (hs : Sound md hm bot vm recs)
+    (hi : md.code[vm.ip]? = some i) (hop : i.op = .MARK)
+    (hstep1 : (step md orc1).run vm = .ok ((), v1)) (hok1 : StepOk md hm vm v1 recs)
+    (hrun : RunsG md hm k v1 ({ F := vm.sp + 5, pp := vm.pp, fp := vm.fp, ra := i.w0 } :: recs) v2 ({ F := vm.sp + 5, pp := vm.pp, fp := vm.fp, ra := i.w0 } :: recs))
+    (hr2 : v2.running = 1) (hj : md.code[v2.ip]? = some j) (hret : j.op = .RET)
+    (hstep3 : (step md orc3).run v2 = .ok ((), v3)) (hok3 : StepOk md hm v2 v3 ({ F := vm.sp + 5, pp := vm.pp, fp := vm.fp, ra := i.w0 } :: recs)) :
+    v3.ip = i.w0 ∧ v3.sp = vm.sp + 1 ∧ v3.fp = vm.fp ∧ v3.pp = vm.pp ∧ v3.running = 1 ∧ Sound md hm bot v3 recs := by
+  have hf := (verifyH_ok md sm hm hv).2
+  have h1 := step_sound hf orc1 vm v1 recs hs hstep1 hok1
+  rw [mark_pushes_record md vm recs i hi hop] at h1
+  -- the machine is still running after the MARK … and at the RET
+  have hs2 : Sound md hm bot v2 ({ F := vm.sp + 5, pp := vm.pp, fp := vm.fp, ra := i.w0 } :: recs) := by
+    rcases h1 with h1 | h1 | h1
+    · rcases runsG_sound hf k v1 v2 _ _ h1 hrun with h | h | h
+      · exact h
+      · omega
+      · omega
+    · cases hrun with
+      | zero => omega
+      | succ _ hr _ _ _ => omega
+    · cases hrun with
+      | zero => omega
+      | succ _ hr _ _ _ => omega
+  obtain ⟨r, rs, e, e1, e2, e3, e4, e5, e6⟩ := verified_ret_step md orc3 sm hm hv bot v2 v3 _ j hj hret hs2 hstep3 hok3
+  cases e
+  exact ⟨e1, by rw [e2]; simp only; omega, e3, e4, e5, e6⟩
+
+/-- **`verify_sound`, relative to its side conditions.**  In a verified module, every run of M-VM — calls, returns, raised and
+re-raised exceptions included — from a state satisfying the global invariant `Sound`, each step of which meets `StepOk`
+(`RunsG`), ends in a state that satisfies the invariant again — running at an address the verifier reached, with exactly
+the stack height it recorded there above the parameters of the running function, or at a handler entry; `fp`/`pp` on live,
+intact frame records —, or the machine stopped (`running = 3`: failed assert / unhandled exception) or halted (`running = 0`).
+PARTIAL: `StepOk` (see its definition) is assumed of every step; of it, the arity of function values is type soundness (C01/C06), and
+"frame words are not overwritten" is proved only for the steps listed at `frame_words_kept`. -/
+theorem verify_sound_partial (md : Module) (sm : Summary) (hm : HMap) (hv : verifyH md = .ok (sm, hm)) (bot : Int)
+    (n : Nat) (vm vm' : Vm) (recs recs' : List Rec) (hs : Sound md hm bot vm recs) (hr : RunsG md hm n vm recs vm' recs') :
+    Sound md hm bot vm' recs' ∨ vm'.running = 3 ∨ vm'.running = 0 :=
+  runsG_sound (verifyH_ok md sm hm hv).2 n vm vm' recs recs' hs hr
+
+/-- … in particular from the machine the first `nev_execute` starts on (empty stack, no live record) -/
+theorem verify_sound_from_start_partial (md : Module) (sm : Summary) (hm : HMap) (hv : verifyH md = .ok (sm, hm))
+    (mem stack gcMode : Nat) (n : Nat) (vm' : Vm) (recs' : List Rec)
+    (hr : RunsG md hm n (beginExecute md (Vm.new mem stack gcMode)) [] vm' recs') :
+    Sound md hm (-1) vm' recs' ∨ vm'.running = 3 ∨ vm'.running = 0 :=
+  verify_sound_partial md sm hm hv (-1) n _ vm' [] recs' (sound_initial (verifyH_ok md sm hm hv).2 mem stack gcMode) hr
+
+/-- **"Frame words are not overwritten": what is proved.**  The three words of every live record are left alone by a step on
+CALL, CLEAR_STACK, JUMP, JUMPZ (no stack write at all); by MARK for every record at or below the top of stack (it writes only above);
+by RET for every record strictly below the slot of the popped record's saved `pp` (the only slot it writes: the result). -/
+theorem frame_words_kept (md : Module) (orc : Oracle) (vm vm' : Vm) (recs : List Rec) (i : Instr) (hi : md.code[vm.ip]? = some i)
+    (hstep : (step md orc).run vm = .ok ((), vm')) :
+    ((i.op = .CALL ∨ i.op = .CLEAR_STACK ∨ i.op = .JUMP ∨ i.op = .JUMPZ) → FramesKept md vm vm' recs) ∧
+    (i.op = .MARK → vm.running = 1 → StackOk vm → (∀ r, r ∈ recs → r.F ≤ vm.sp) → FramesKept md vm vm' recs) ∧
+    (i.op = .RET → StackOk vm → (∀ r, r ∈ recs.tail → r.F < vm.fp - 4) → FramesKept md vm vm' recs) :=
+  ⟨fun h => framesKept_control orc vm vm' recs i hi h hstep,
+   fun h hr hs hb => framesKept_MARK orc vm vm' recs i hi h hr hs hb hstep,
+   fun h hs hb => framesKept_RET orc vm vm' recs i hi h hs hb hstep⟩
+
+/-- **Write footprint of the verifier's effect table** (all 198 opcodes, any machine state): the handler of an instruction to
+which `simpleEffect` assigns `(pops, pushes)`, started with stack pointer `sp` and run to completion or to a raised exception, leaves
+every stack slot below `sp − pops + 1` — everything under its lowest operand — exactly as it was.  (A fourth effect logic,
+`NoWr`/`Foot`/`FootAt` in Lemmas/VmNoWr.lean, VmFoot*.lean, reusing the `sp` bookkeeping of `EffAt`.) -/
+theorem effect_table_write_footprint (md : Module) (ins : Instr) (orc : Oracle) (p q : Nat) (h : simpleEffect ins = some (p, q))
+    (vm vm' : Vm) (hr : (exec md ins orc).run vm = .ok ((), vm')) (j : Int) (hj : j < vm.sp - (p : Int) + 1) : slot vm' j = slot vm j :=
+  exec_foot_table md ins orc p q h vm.sp vm () vm' rfl hr j hj
+
+/-- **A verified function never writes at or below its frame base `pp`** — "stores never hit the frame words below `pp + 1`".  In a
+verified module, from a machine at its recorded height (`sp = pp + nparams + h(ip)`), a step on any instruction of the effect table
+(its operands exist above the parameters, and it writes nothing under its lowest operand), on MARK (writes above the top), SLIDE
+(what it moves stays above `pp`; in the last-call case exactly the parameter block `pp + 1 …`), CALL, CLEAR_STACK or JUMP leaves every
+stack slot `j ≤ pp` as it was: the frame record the running function was entered through and all frames of its callers.  Hence every
+live record with `F ≤ pp` keeps its three words (`framesKept_below_pp`): of the side condition "frame words are not overwritten" only
+the records of calls *in preparation* in the running function (above `pp`), `MK_INIT_ARRAY`, `PUSH_PARAM` and the slot RET writes
+remain assumed. -/
+theorem verified_step_keeps_callers_frames (md : Module) (orc : Oracle) (sm : Summary) (hm : HMap) (hv : verifyH md = .ok (sm, hm))
+    (vm vm' : Vm) (i : Instr) (hi : md.code[vm.ip]? = some i) (hh : AtHeight md hm vm)
+    (hop : (simpleEffect i).isSome = true ∨ i.op = .MARK ∨ i.op = .SLIDE ∨ i.op = .CALL ∨ i.op = .CLEAR_STACK ∨ i.op = .JUMP)
+    (hstep : (step md orc).run vm = .ok ((), vm')) :
+    (∀ j, j ≤ vm.pp → slot vm' j = slot vm j) ∧
+    (∀ r : Rec, r.F ≤ vm.pp → slot vm' (r.F - 4) = slot vm (r.F - 4) ∧ slot vm' (r.F - 1) = slot vm (r.F - 1) ∧ slot vm' r.F = slot vm r.F) :=
+  ⟨step_keeps_below_pp (verifyH_ok md sm hm hv).2 orc vm vm' i hi hh hop hstep,
+   fun r hr => framesKept_below_pp (verifyH_ok md sm hm hv).2 orc vm vm' i hi hh hop hstep r hr⟩
+
+/-- **`verify_sound` with the frame-word condition reduced to what is not proved.**  As `verify_sound_partial`, but of "frame words are
+not overwritten" the steps are only asked (`StepOkP`, runs `RunsP`) to keep the words of live records ABOVE `pp` — the records of calls
+being prepared in the running function, which the verifier does not track (`slideModule`) — and, for the four opcodes MK_INIT_ARRAY,
+PUSH_PARAM, RET, RETHROW, of all live records that stay live; that no instruction of the effect table, no MARK, SLIDE, CALL, CLEAR_STACK,
+JUMP touches a frame record at or below `pp` is `verified_step_keeps_callers_frames`.  The other side conditions are unchanged: the
+arity of function values at CALL (type soundness), a live record at RET, the recorded constants of MK_INIT_ARRAY. -/
+theorem verify_sound_pending_partial (md : Module) (sm : Summary) (hm : HMap) (hv : verifyH md = .ok (sm, hm)) (bot : Int)
+    (n : Nat) (vm vm' : Vm) (recs recs' : List Rec) (hs : Sound md hm bot vm recs) (hr : RunsP md hm n vm recs vm' recs') :
+    Sound md hm bot vm' recs' ∨ vm'.running = 3 ∨ vm'.running = 0 :=
+  verify_sound_partial md sm hm hv bot n vm vm' recs recs' hs (runsP_runsG (verifyH_ok md sm hm hv).2 n vm vm' recs recs' hs hr)
+
+/-- on the run of `callModule`: between the entry of `f` (5 steps: `pp = 4`, the record in slots 0 … 4) and its RET (9 steps) the
+slots 0 … 4 are untouched, while slot 5 and above are worked on -/
+example : (match run callModule (fun _ => {}) 5 (beginExecute callModule (Vm.new 64 32)),
+                 run callModule (fun _ => {}) 9 (beginExecute callModule (Vm.new 64 32)) with
+    | .ok a, .ok b => a.pp == 4 && b.pp == 4 && b.ip == 12 && (List.range 5).all (fun j => slot b j == slot a j) && slot b 6 != slot a 6
+    | _, _ => false) = true := by decide +kernel
+
+/-- the global invariant holds of the start machine of `callModule`, and a whole run of it — MARK, the argument, the function value,
+CALL into `f`, `x + 1`, RET back behind the CALL, HALT — passes the addresses 0 … 5, 8 … 12 and ends halted with exactly the result
+on the stack (`sp = 0`), `fp = pp = −1` restored -/
+example : ∀ sm hm, verifyH callModule = .ok (sm, hm) → Sound callModule hm (-1) (beginExecute callModule (Vm.new 64 32)) [] :=
+  fun sm hm hv => sound_initial (verifyH_ok callModule sm hm hv).2 64 32 0
+
+example : (match run callModule (fun _ => {}) 11 (beginExecute callModule (Vm.new 64 32)) with
+    | .ok v => v.running == 0 && v.ip == 6 && v.sp == 0 && v.fp == -1 && v.pp == -1
+    | .error _ => false) = true := by decide +kernel
+
+/-- … and inside the callee, after the CALL (5 steps), the machine is at the function entry with `pp = fp = 4` (the record),
+`sp = pp + 1` (one parameter), i.e. at the recorded height 0 -/
+example : (match run callModule (fun _ => {}) 5 (beginExecute callModule (Vm.new 64 32)) with
+    | .ok v => v.running == 1 && v.ip == 8 && v.pp == 4 && v.fp == 4 && v.sp == v.pp + 1 + 0
+    | .error _ => false) = true := by decide +kernel
+
+/-- **the side conditions `StepOk` are satisfiable on a run with a call and a return**: the whole run of `callModule` from its start
+machine to HALT (11 steps: MARK … CALL, the callee, RET, HALT) is a `RunsG` run — every step meets the side conditions (checked by
+the decidable `stepOkB`, sound by `stepOkB_sound`) —, so `verify_sound_partial` applies to it -/
+example : ∀ sm hm, verifyH callModule = .ok (sm, hm) →
+    ∃ k vm' recs', RunsG callModule hm k (beginExecute callModule (Vm.new 64 32)) [] vm' recs' ∧ vm'.running = 0 ∧ recs' = [] := by
+  intro sm hm hv
+  have key : (match verifyH callModule with
+      | .ok (_, hm) =>
+        (match runGB callModule hm (fun _ => {}) 11 (beginExecute callModule (Vm.new 64 32)) [] with
+         | some (v, rs) => v.running == 0 && rs.isEmpty
+         | none => false)
+      | .error _ => false) = true := by decide +kernel
+  rw [hv] at key
+  simp only at key
+  cases hr : runGB callModule hm (fun _ => {}) 11 (beginExecute callModule (Vm.new 64 32)) [] with
+  | none => rw [hr] at key; cases key
+  | some p =>
+    obtain ⟨v, rs⟩ := p
+    rw [hr] at key
+    simp only [Bool.and_eq_true, beq_iff_eq, List.isEmpty_iff] at key
+    obtain ⟨k, hk⟩ := runGB_runsG callModule hm _ 11 _ _ _ _ hr
+    exact ⟨k, v, rs, hk, key.1, key.2⟩
+
+/-- (a run meeting `StepOk` meets the weaker `StepOkP` of `verify_sound_pending_partial`: the same run is an instance of it) -/
+example (md : Module) (hm : HMap) (n : Nat) (vm vm' : Vm) (recs recs' : List Rec) (h : RunsG md hm n vm recs vm' recs') :
+    RunsP md hm n vm recs vm' recs' := runsG_runsP n vm vm' recs recs' h
+
+/-- **the arity side condition is needed** (the verifier cannot know it: function values are dynamic).  `arityModule` is `callModule`
+with a second argument pushed for the one-parameter function `f`.  It verifies — every height re-checks —, but its run enters `f` with
+`sp = pp + 2`: one slot above the recorded height 0 of the entry, so `AtHeight` fails there, `f` adds the wrong operands' neighbours
+and returns with its "result" above a stale slot.  `stepOkB` refuses exactly the CALL (step 5): the decidable side-condition check
+returns `none`. In the language this is excluded by the type checker (C06), not by the bytecode verifier. -/
+def arityModule : Module := { callModule with
+  code := #[⟨.MARK, 6, 0, 0⟩, ⟨.INT, 7, 0, 0⟩, ⟨.INT, 9, 0, 0⟩, ⟨.GLOBAL_VEC, 0, 0, 0⟩, ⟨.ID_FUNC_ADDR, 9, 0, 0⟩, ⟨.CALL, 0, 0, 0⟩, ⟨.HALT, 0, 0, 0⟩,
+            ⟨.LABEL, 0, 0, 0⟩, ⟨.UNHANDLED_EXCEPTION, 0, 0, 0⟩,
+            ⟨.FUNC_DEF, 0, 0, 0⟩, ⟨.ID_LOCAL, 0, 0, 0⟩, ⟨.INT, 1, 0, 0⟩, ⟨.OP_ADD_INT, 0, 0, 0⟩, ⟨.RET, 0, 0, 0⟩,
+            ⟨.LABEL, 0, 0, 0⟩, ⟨.RETHROW, 0, 0, 0⟩],
+  exctab := #[⟨0, 7⟩, ⟨9, 14⟩, ⟨4294967295, 0⟩], excCount := 2, entryAddr := 9, fnParams := [(9, 1)] }
+
+example : (match verifyH arityModule with
+    | .ok (_, hm) =>
+      -- verified; the side-condition check fails; and after the CALL (6 steps) the machine is NOT at the recorded height of the entry
+      (runGB arityModule hm (fun _ => {}) 12 (beginExecute arityModule (Vm.new 64 32)) []).isNone &&
+      (runGB arityModule hm (fun _ => {}) 5 (beginExecute arityModule (Vm.new 64 32)) []).isSome &&
+      (match run arityModule (fun _ => {}) 6 (beginExecute arityModule (Vm.new 64 32)) with
+       | .ok v => v.ip == 9 && (hm[9]?.map (·.map (·.h))) == some (some 0) && v.sp == v.pp + 1 + 0 + 1
+       | .error _ => false)
+    | .error _ => false) = true := by decide +kernel
+
+/-- **the frame-word side condition is needed too, and the verifier as it stands does not imply it for calls in preparation.**
+`slideModule` verifies — `MARK`, one value, then an ordinary `SLIDE 5 1` (`q + m = 6 ≤ h = 6`) that moves the value down over the five
+frame words MARK has just pushed, then the function value and the marked `CALL` —: every height re-checks, but the SLIDE overwrites
+the saved-`pp` word of the live record while `fp` still points at it.  `stepOkB` refuses that step (index 2).  The verifier tracks
+heights, not which slots hold frame records of calls being prepared; the real emitter never slides across a MARK (checked on every
+replayed run by `stepOkB`), but a full `verify_sound` without this side condition is FALSE for `verifyH` as defined. -/
+def slideModule : Module := { callModule with
+  code := #[⟨.MARK, 6, 0, 0⟩, ⟨.INT, 1, 0, 0⟩, ⟨.SLIDE, 5, 1, 0⟩, ⟨.GLOBAL_VEC, 0, 0, 0⟩, ⟨.ID_FUNC_ADDR, 9, 0, 0⟩, ⟨.CALL, 0, 0, 0⟩, ⟨.HALT, 0, 0, 0⟩,
+            ⟨.LABEL, 0, 0, 0⟩, ⟨.UNHANDLED_EXCEPTION, 0, 0, 0⟩,
+            ⟨.FUNC_DEF, 0, 0, 0⟩, ⟨.ID_LOCAL, 0, 0, 0⟩, ⟨.RET, 0, 0, 0⟩, ⟨.LABEL, 0, 0, 0⟩, ⟨.RETHROW, 0, 0, 0⟩],
+  exctab := #[⟨0, 7⟩, ⟨9, 12⟩, ⟨4294967295, 0⟩], excCount := 2, entryAddr := 9, fnParams := [(9, 1)] }
+
+example : (match verifyH slideModule with
+    | .ok (_, hm) =>
+      (hm.toList.map fun o => o.map (·.h)) == [some 0, some 5, some 6, some 1, some 2, some 2, some 1, some 0, some 0, some 0, some 0, some 1, some 0, some 0] &&
+      (runGB slideModule hm (fun _ => {}) 2 (beginExecute slideModule (Vm.new 64 32)) []).isSome &&
+      (runGB slideModule hm (fun _ => {}) 3 (beginExecute slideModule (Vm.new 64 32)) []).isNone
+    | .error _ => false) = true := by decide +kernel
 
 end Never.C07
